@@ -91,6 +91,8 @@ def step (_ : Unit) (ts : List String) : Unit × String :=
   | "swap" :: _ => if out = ["identical"] then ((), "ok") else ((), judgeLoadLine .fragment out)
   | "copy" :: _ => if out = ["identical"] then ((), "ok") else ((), judgeLoadLine .fragment out)
   | "man" :: _ => ((), judgeLoadLine .manifest out)
+  | "mans" :: _ => ((), judgeLoadLine .manifest out)
+  | "arcmans" :: _ => if out.head? = some "skip" then ((), "ok") else ((), judgeLoadLine .manifest out)
   | "arc" :: _ => ((), judgeLoadLine .archive out)
   | "arckey" :: _ => ((), judgeLoadLine .key out)
   | ["tar", mode, pre, spec] => ((), judgeTarLine mode pre spec out)
